@@ -241,7 +241,7 @@ def obligations(tier):
                 continue
         o.append(Obl('word.%s' % hashlib.sha1((it['kind'] + ' ' + w).encode()).hexdigest()[:8], 'c33_%d' % b, 'props/C33/harness_word.c', "match-compiled test of the pattern word '%s' == Token::%s(tok, word) on every fabricated token (and on a null token)" % (w, 'Match' if it['kind'] == 'match' else 'simpleMatch'),
                      'one token; text from the word\'s literals +/- one character and 20 foreign texts; all token types; varId 0..2', defines={'WORD': it['k']},
-                     backend='sat', timeout=(240 if tier == 'quick' and not forced else 900), mem_gb=5, unwind_max=48, max_rounds=24, tv_vectors=24, tv=(int(hashlib.sha1(w.encode()).hexdigest(), 16) % 8 == 0), hints=dict({'harness.1': 26, 'harness.0': 26, 'sstr_set.0': 17, 'll_strchr.0': 32}, **({'_ZN5Token5MatchEPKS_PKci.7': 8, '_ZN5Token5MatchEPKS_PKci.8': 8} if forced else {}))))
+                     backend='sat', timeout=(240 if tier == 'quick' and not forced else 900), mem_gb=5, unwind_max=48, max_rounds=24, tv_vectors=24, tv=(int(hashlib.sha1(w.encode()).hexdigest(), 16) % 8 == 0), hints=dict({'harness.1': 26, 'harness.0': 26, 'sstr_set.0': 17}, **({'ll_strchr.0': 32, '_ZN5Token5MatchEPKS_PKci.7': 8, '_ZN5Token5MatchEPKS_PKci.8': 8} if forced else {}))))
     return o
 
 
